@@ -431,7 +431,8 @@ func runCase(k int, f *hx.Flags, o *hx.Out) {
 		b0 = c.P - mtbAtP
 	}
 	// b0 is read off the source (what a synced node has); the driver checks it against the model's windowBase(P, mtb)
-	o.Line(fmt.Sprintf("cfg %d %d %d %d %d", c.P, b0, c.id[c.root], len(c.hashes), mtbAtP), "ok")
+	// (likewise P: the driver checks it against the model's syncPointOf(top, interval))
+	o.Line(fmt.Sprintf("cfg %d %d %d %d %d %d %d", c.P, b0, c.id[c.root], len(c.hashes), mtbAtP, top, interval), "ok")
 	for i, h := range c.hashes {
 		var parts []string
 		inf := info[h]
